@@ -188,18 +188,18 @@ Proof.
     rewrite enc_type_udt in *. rewrite view_type_udt. cbn [read_type]. rewrite <- !app_assoc. obind. rewrite read_short_enc by lia.
     tags. obind. rewrite out_ret. cbn [fst snd]. tags.
     obind. rewrite read_string_enc by assumption. obind. rewrite read_string_enc by assumption.
-    obind. rewrite read_short_enc by (unfold count in *; lia). obind. rewrite out_alloc. obind.
+    obind. rewrite read_short_enc by (unfold count in *; lia). obind.
     rewrite !app_length in Hf. cbn [enc_short length] in Hf.
-    assert (Hrc : out (read_count (nm <- read_string;; t <- read_type fuel;; ret (nm, t)) (count fs))
+    assert (Hrc : out (read_count (nm <- read_string;; t <- read_type fuel;; alloc 160;;; ret (nm, t)) (count fs))
                       (concat (map enc_field fs) ++ rest) = Ok (map view_field fs, rest)).
     { (* read the fields as the images of their views *)
       clear Hc.
       assert (Hel : forall f, In f fs -> (length (enc_field f) <= fuel)%nat).
       { intros f Hin. pose proof (in_concat_le enc_field f fs Hin). lia. }
       clear Hf.
-      unfold read_count, out. fold (out (read_loop (S (length (concat (map enc_field fs) ++ rest))) (nm <- read_string;; t <- read_type fuel;; ret (nm, t)) (count fs)) (concat (map enc_field fs) ++ rest)).
+      unfold read_count, out. fold (out (read_loop (S (length (concat (map enc_field fs) ++ rest))) (nm <- read_string;; t <- read_type fuel;; alloc 160;;; ret (nm, t)) (count fs)) (concat (map enc_field fs) ++ rest)).
       assert (Hgen : forall fl, (length fs <= fl)%nat ->
-                out (read_loop fl (nm <- read_string;; t <- read_type fuel;; ret (nm, t)) (count fs)) (concat (map enc_field fs) ++ rest)
+                out (read_loop fl (nm <- read_string;; t <- read_type fuel;; alloc 160;;; ret (nm, t)) (count fs)) (concat (map enc_field fs) ++ rest)
                 = Ok (map view_field fs, rest)).
       { induction fs as [|f fs IHfs]; intros fl Hfl.
         - destruct fl; reflexivity.
@@ -209,7 +209,7 @@ Proof.
           inversion Hfs as [|? ? [Hfn Hft] Hfs']; subst. inversion IH as [|? ? IHf IH']; subst.
           rewrite read_string_enc by assumption. obind.
           rewrite IHf; [| assumption | specialize (Hel f (or_introl eq_refl)); unfold enc_field in Hel; rewrite app_length in Hel; lia].
-          rewrite out_ret. obind.
+          obind. rewrite out_alloc. rewrite out_ret. obind.
           replace (count (f :: fs) - 1) with (count fs) by (unfold count; simpl length; lia).
           rewrite IHfs; [reflexivity | assumption | assumption | intros g Hg; apply Hel; right; assumption | simpl in Hfl; lia]. }
       apply Hgen. rewrite app_length.
@@ -221,22 +221,22 @@ Proof.
     apply wf_stype_tuple in Hwf. destruct Hwf as [Hc Hes].
     rewrite enc_type_tuple in *. rewrite view_type_tuple. cbn [read_type]. rewrite <- !app_assoc. obind. rewrite read_short_enc by lia.
     tags. obind. rewrite out_ret. cbn [fst snd]. tags.
-    obind. rewrite read_short_enc by (unfold count in *; lia). obind. rewrite out_alloc. obind.
+    obind. rewrite read_short_enc by (unfold count in *; lia). obind.
     rewrite !app_length in Hf. cbn [enc_short length] in Hf.
-    assert (Hrc : out (read_count (read_type fuel) (count es)) (concat (map enc_type es) ++ rest) = Ok (map view_type es, rest)).
+    assert (Hrc : out (read_count (t <- read_type fuel;; alloc 80;;; ret t) (count es)) (concat (map enc_type es) ++ rest) = Ok (map view_type es, rest)).
     { assert (Hel : forall e, In e es -> (length (enc_type e) <= fuel)%nat).
       { intros e Hin. pose proof (in_concat_le enc_type e es Hin). lia. }
       clear Hf Hc.
-      unfold read_count, out. fold (out (read_loop (S (length (concat (map enc_type es) ++ rest))) (read_type fuel) (count es)) (concat (map enc_type es) ++ rest)).
+      unfold read_count, out. fold (out (read_loop (S (length (concat (map enc_type es) ++ rest))) (t <- read_type fuel;; alloc 80;;; ret t) (count es)) (concat (map enc_type es) ++ rest)).
       assert (Hgen : forall fl, (length es <= fl)%nat ->
-                out (read_loop fl (read_type fuel) (count es)) (concat (map enc_type es) ++ rest) = Ok (map view_type es, rest)).
+                out (read_loop fl (t <- read_type fuel;; alloc 80;;; ret t) (count es)) (concat (map enc_type es) ++ rest) = Ok (map view_type es, rest)).
       { induction es as [|e es IHes]; intros fl Hfl.
         - destruct fl; reflexivity.
         - destruct fl as [|fl]; [simpl in Hfl; lia|]. cbn [read_loop].
           destruct (Z.leb_spec (count (e :: es)) 0); [unfold count in *; simpl length in *; lia|].
-          cbn [map concat]. rewrite <- !app_assoc. obind.
+          cbn [map concat]. rewrite <- !app_assoc. obind. obind.
           inversion Hes as [|? ? He Hes']; subst. inversion IH as [|? ? IHe IH']; subst.
-          rewrite IHe; [| assumption | apply Hel; left; reflexivity]. obind.
+          rewrite IHe; [| assumption | apply Hel; left; reflexivity]. obind. rewrite out_alloc. rewrite out_ret. obind.
           replace (count (e :: es) - 1) with (count es) by (unfold count; simpl length; lia).
           rewrite IHes; [reflexivity | assumption | assumption | intros g Hg; apply Hel; right; assumption | simpl in Hfl; lia]. }
       apply Hgen. rewrite app_length.
